@@ -231,6 +231,16 @@ def mechanism(body, hist, te, tg):
     if is_exit and got_ignored and not exp_ignored and 'return-value-in-handler' in body.get('feat', ()):
         return 'close-return-value-raises-ignored-exit', info
     mode_t = o.endswith('/t')
+    thrown_before = set()
+    for ent in te[1:k]:
+        eo = _opkey(ent[0])
+        ek = eo.split(':')[0].split('/')[0]
+        if ek in ('throw', 'athrow'):
+            thrown_before.add(THROWN_NAME.get(eo.split(':')[1].split('/')[0]))
+        elif ek in ('close', 'aclose'):
+            thrown_before.add('GeneratorExit')
+        if eo.endswith('/t'):
+            thrown_before.add('ValueError')
     if kind == 'coro' and got_pep479 and exp_pep479 and \
             json.loads(json.dumps(tg[k]).replace('generator raised StopIteration', 'coroutine raised StopIteration')) == te[k]:
         # PEP 479 conversion inside a coroutine: CPython says "coroutine raised StopIteration"
@@ -268,6 +278,10 @@ def mechanism(body, hist, te, tg):
                 # (B1) the exception thrown in (or GeneratorExit) does not get the generator's handled exception as context
                 if (is_throw or is_exit) and owner in (THROWN_NAME.get(oparg), 'GeneratorExit', 'log'):
                     return 'throw-context-in-handler'
+            if fk == 'ctx-missing' and owner in thrown_before:
+                # (B1/M, delayed) an exception thrown in by an earlier operation was parked (e.g. by an __aexit__ that
+                # awaits) and resurfaces now, still without the context CPython gave it
+                return 'throw-context-in-handler'
             if fk == 'ctx-other' and got_pep479 and exp_pep479 and owner == 'RuntimeError':
                 return 'pep479-runtimeerror-context-detail'
             return None
